@@ -248,8 +248,24 @@ pub struct SubFileSizes {
 impl SubFileSizes {
     /// Calculate the valid value of lf, given all of the other fields.
     pub fn valid_lf(&self) -> i16 {
+        // A sum that does not fit in an i16 cannot be the length of a .tfm file.
+        self.valid_lf_wide().try_into().unwrap_or(i16::MAX)
+    }
+
+    /// Same as [`SubFileSizes::valid_lf`] but calculated without overflow.
+    pub fn valid_lf_wide(&self) -> i32 {
         let s = self;
-        6 + s.lh + (s.ec - s.bc + 1) + s.nw + s.nh + s.nd + s.ni + s.nl + s.nk + s.ne + s.np
+        let w = |x: i16| -> i32 { x.into() };
+        6 + w(s.lh)
+            + (w(s.ec) - w(s.bc) + 1)
+            + w(s.nw)
+            + w(s.nh)
+            + w(s.nd)
+            + w(s.ni)
+            + w(s.nl)
+            + w(s.nk)
+            + w(s.ne)
+            + w(s.np)
     }
 }
 
@@ -445,7 +461,7 @@ impl<'a> RawFile<'a> {
                 warnings,
             );
         }
-        if s.lf != s.valid_lf() {
+        if i32::from(s.lf) != s.valid_lf_wide() {
             return (
                 Err(DeserializationError::InconsistentSubFileSizes(s.clone())),
                 warnings,
